@@ -64,7 +64,7 @@ def correspond(ctx, scale):
                                              'case': dict(world=world, scenario=name, step=t, seed=seed)})
                             break
                 # (b) deterministic EMA path = a single process on the concatenation of all ranks' batches (same initial state)
-                if name in ('vq-euclid', 'vq-cosine', 'vq-heads-sep'):
+                if name in ('vq-euclid', 'vq-cosine', 'vq-heads-sep', 'vq-euclid-masked', 'vq-cosine-masked'):
                     torch.manual_seed(seed + si)
                     random.seed(seed + si)
                     single, dim = c16_worker.build(name, sync=False)
@@ -72,8 +72,9 @@ def correspond(ctx, scale):
                     for t in range(len(recs[0]['states'])):
                         xcat = torch.cat([recs[r]['batches'][t] for r in range(world)], dim=0)
                         before = vqrec.cb_state(single._codebook)
-                        _, recl = vqrec.record_call(single, xcat)
-                        if name == 'vq-cosine':
+                        mkw = {'mask': torch.cat([recs[r]['masks'][t] for r in range(world)], dim=0)} if name.endswith('-masked') else {}
+                        _, recl = vqrec.record_call(single, xcat, **mkw)
+                        if name in ('vq-cosine', 'vq-cosine-masked'):
                             # normalised inputs are not dyadic: the order of the float32 partial sums may differ in the last bit
                             sd = single.state_dict()
                             bad_k = [k for k in sd if sd[k].dtype.is_floating_point and not torch.allclose(sd[k], recs[0]['states'][t][k], atol=1e-6, rtol=1e-5)]
@@ -92,7 +93,7 @@ def correspond(ctx, scale):
                                            cluster_size=recs[0]['states'][t]['_codebook.cluster_size'].double().tolist(), initted=True)
                         rec.after = after_rank0
                         for h in range(rec.H):
-                            cases.append(c03.update_term(rec, h, single._codebook, name == 'vq-cosine', c03.TOL_E, c03.TOL_S))
+                            cases.append(c03.update_term(rec, h, single._codebook, name in ('vq-cosine', 'vq-cosine-masked'), c03.TOL_E, c03.TOL_S))
                             meta.append(dict(world=world, scenario=name, step=t, head=h))
                             dist['model_cases'] += 1
                 # (c) quantize-dropout depth agrees across ranks
@@ -123,7 +124,7 @@ def correspond(ctx, scale):
         failures.append({'key': f'{m["scenario"]}:model:code{code}', 'what': f'{m["scenario"]} (world {m["world"]}) step {m["step"]}: the ranks\' state differs from the model stepped on the concatenated batch ({c03.CODES.get(code, code)})',
                          'case': dict(m, term=cases[i][:30000])})
     return {'evaluations': ev, 'distinct_nontrivial': nt,
-            'rule': 'real gloo process groups over loopback (file:// rendezvous), world sizes ' + str(worlds) + ', unequal per-rank batch sizes, independent RNG streams, multi-step histories, 12 scenarios '
+            'rule': 'real gloo process groups over loopback (file:// rendezvous), world sizes ' + str(worlds) + ', unequal per-rank batch sizes, independent RNG streams, multi-step histories, 14 scenarios (two with ragged masks and one rank all padding on odd steps) '
                     '(Euclidean / cosine / separate heads EMA, expiry, k-means init, ResidualVQ per-layer + dropout and shared, LFQ): per-rank state_dict bit-equal across ranks after every step; EMA path bit-equal to a single process on the concatenated batch '
                     'and equal to the Coq model step on that batch; dropout depth equal across ranks; LFQ batch entropy = entropy of the rank-averaged distribution; non-trivial = ranks hold different batches (always)',
             'samples': samples, 'failures': failures, 'distribution': dist}
